@@ -109,6 +109,12 @@ F32, F64, I32, I64, BOOL, VEC, MAT = (DType.float32, DType.float64, DType.int32,
                                       DType.vector3, DType.linear_transform3)
 FLOATS = (F32, F64)
 INTS = (I32, I64)
+
+
+class SymDim(tuple):
+    """the (unknown) length of a dimension: compares like the plain tuple ('n', dim) and is recognisable as a symbolic stand-in"""
+    __slots__ = ()
+
 MATS = (DType.linear_transform3, DType.rotation3)
 
 U64 = Fr(1, 2 ** 53)
@@ -248,7 +254,7 @@ class Var:
 
     @property
     def sizes(self):
-        return {d: self._sizes.get(d, ('n', d)) for d in self.dims}
+        return {d: self._sizes.get(d, SymDim(('n', d))) for d in self.dims}
 
     @property
     def shape(self):
@@ -909,7 +915,7 @@ class ArrTag:
     @property
     def shape(self):
         k = _kind(self.var.dtype)
-        return (3,) if k == 'vec' and not self.var.dims else tuple(('n', d) for d in self.var.dims) + ((3,) if k == 'vec' else ())
+        return (3,) if k == 'vec' and not self.var.dims else tuple(SymDim(('n', d)) for d in self.var.dims) + ((3,) if k == 'vec' else ())
 
     def squeeze(self):
         return self
